@@ -1,10 +1,12 @@
 package main
 
 import (
+	"bufio"
 	"bytes"
 	"fmt"
 	"io"
 	"strings"
+	"unicode/utf8"
 
 	"github.com/gobwas/ws"
 	"github.com/gobwas/ws/wsutil"
@@ -117,6 +119,28 @@ func fixMask(f fspec, side string) fspec {
 	return f
 }
 
+// readerTranscript: what a Reader on src returns, call by call, until the first error.
+func readerTranscript(src io.Reader, side string) string {
+	rd := &wsutil.Reader{Source: src, State: wsState(side)}
+	var b strings.Builder
+	for i := 0; i < 12; i++ {
+		h, err := rd.NextFrame()
+		cls, rule := rerr(err)
+		fmt.Fprintf(&b, "[%d %v %d %v %d %s %s", h.OpCode, h.Fin, h.Rsv, h.Masked, h.Length, cls, rule)
+		if err != nil {
+			b.WriteString("]")
+			break
+		}
+		p, err := io.ReadAll(rd)
+		cls, rule = rerr(err)
+		fmt.Fprintf(&b, " %x %s %s]", p, cls, rule)
+		if err != nil {
+			break
+		}
+	}
+	return b.String()
+}
+
 func c05(c *ctx) {
 	t := &rsink{out: vh.NewOut(c.dir, "c05", 40000), shapes: vh.Shapes{}, meta: &vh.Meta{Property: "C05", Tier: c.tier, Seed: c.seed,
 		Rule: "traces = every valid prefix of 0..P frames (P=2 quick on the short-payload alphabet, 2 full + 3 short thorough) extended by each of 32 invalid frames applicable in that fragmentation state (reserved opcodes, control > 125 / not final, non-zero RSV with and without the extension, wrong mask bit, data frame while open, continuation while closed, doubly broken) and a trailing ping, both sides, entries Reader/ReadMessage/ReadData, chunkings rotated; plus MaxFrameSize in {len-1, len, len+1} around a 130-byte frame at every position; distinct = (entry, side, per-call outcome sequence)"}}
@@ -151,6 +175,28 @@ func c05(c *ctx) {
 						sc.build(fs, len(key))
 					}
 					t.run(sc)
+					// the same stream behind a *bufio.Reader (small buffers, a transport that delivers in pieces, so
+					// that headers straddle refills): the reader must do exactly what it does on the bare source
+					if !bf.ext && (c.thorough || rot%3 == 0) {
+						want := readerTranscript(&vh.ChunkReader{Data: sc.stream}, side)
+						for bi, bsz := range []int{16, 19, 32, 64} {
+							for ci, chunk := range [][]int{{1}, {3}, {5, 2}, {7}, {13, 1}, {2, 9}} {
+								if !c.thorough && (bi+ci+rot)%3 != 0 {
+									continue
+								}
+								k2 := fmt.Sprintf("bufsrc/%s/%s/%s/%d/%d", side, bf.name, seqKey(pre), bsz, ci)
+								if !vh.Only(k2) {
+									continue
+								}
+								got := readerTranscript(bufio.NewReaderSize(&vh.ChunkReader{Data: sc.stream, Sizes: chunk}, bsz), side)
+								if got != want {
+									t.meta.Direct = append(t.meta.Direct, map[string]interface{}{"key": k2,
+										"what": "behind a bufio.Reader the reader behaves differently: bare source " + want + " | buffered " + got})
+								}
+								t.traces++
+							}
+						}
+					}
 				}
 			}
 		})
@@ -436,6 +482,13 @@ func c07(c *ctx) {
 						v := vs[(rot/2)%len(vs)]
 						key := fmt.Sprintf("utf8/%s/%d/%d/%d/%d/%s/%s", s.name, i, j, ping, op, side, v.Entry)
 						t.run(mkScenario(key, side, v, fs, rchunks[rot%len(rchunks)], rbufs[(rot/5)%len(rbufs)]))
+						// a caller that drops a text message reported invalid and reads on: what follows is
+						// judged on its own (every sample that is not valid UTF-8, and some that are)
+						if v.Entry == "reader" && op == 1 && (c.thorough || rot%2 == 1 || !utf8.Valid(s.b)) {
+							sc := mkScenario("u8discard"+key[4:], side, v, fs, rchunks[(rot+1)%len(rchunks)], rbufs[(rot/5)%len(rbufs)])
+							sc.DiscardInvalid = true
+							t.run(sc)
+						}
 						// an OnContinuation callback that takes the first byte(s) of a continuation frame for
 						// itself: they are part of the message, and of what the UTF-8 check has to see
 						if v.Entry == "reader" && len(parts) > 1 && (c.thorough || rot%3 == 0 || len(parts[1]) > 0 && parts[1][0] >= 0x80) {
@@ -735,6 +788,26 @@ func c18r(c *ctx) {
 		Rule: "message reader reuse: first message (32 valid/invalid/truncated UTF-8 strings as text or binary, 1-3 fragments, optional ping) read with 1/2/7-byte buffers and discarded after 0..3 reads or read to the end, followed by two valid messages on the same reader (CheckUTF8 on/off, extension attached or not); distinct = (string, discard point, outcome)"}}
 	defer t.out.Close()
 	reuseFamily(t, c, "reuse", func(rot int, disc int) bool { return c.thorough || rot%3 == 0 || disc == 1 })
+	// empty messages that the caller does not bother to read, followed by control frames whose payload is
+	// not text and by further messages: nothing of the unread message's kind sticks to what follows
+	for ei, emptyOp := range []int{1, 2} {
+		for ci, ctl := range []fspec{{Op: 9, Fin: true, Pay: []byte{0xff, 0xfe}}, {Op: 10, Fin: true, Pay: []byte{0xc3}}, {Op: 8, Fin: true, Pay: closePay(2)},
+			{Op: 9, Fin: true, Pay: []byte("ascii")}, {Op: 8, Fin: true, Pay: append(closePay(2), 0xe2, 0x82)}} {
+			for _, side := range []string{"server", "client"} {
+				for _, utf8on := range []bool{true, false} {
+					for ni, next := range [][]fspec{{{Op: 2, Fin: true, Pay: []byte{0xff}}}, {{Op: 1, Fin: false, Pay: []byte("a")}, {Op: 0, Fin: true, Pay: []byte("b")}}} {
+						fs := []fspec{{Op: emptyOp, Fin: true, Pay: []byte{}}, ctl}
+						fs = append(fs, next...)
+						fs = append(fs, fspec{Op: 1, Fin: true, Pay: []byte{}}, fspec{Op: 2, Fin: true, Pay: []byte{0x80}})
+						key := fmt.Sprintf("skipempty/%d/%d/%s/%v/%d", ei, ci, side, utf8on, ni)
+						sc := mkScenario(key, side, rvariant{"reader", nil, -1, utf8on}, fs, rchunks[(ei+ci+ni)%len(rchunks)], rbufs[(ci+ni)%len(rbufs)])
+						sc.SkipEmptyMsg = true
+						t.run(sc)
+					}
+				}
+			}
+		}
+	}
 	// a message given up after the application's own OnContinuation callback refused one of its
 	// fragments (the last one, or an earlier one): once Discard() has dropped the rest, the reader
 	// takes the next messages like a new one
